@@ -67,11 +67,15 @@ def build_model(seed):
         f = ent("area", "proc", m, "function")
         ent("radius", "arg", f, None)  # dummy argument: documented with the procedure, not a link target
         ent("count", "variable", m, "variable")
+        # a generic interface named like the type (user-defined constructor): children of the module that only the kind tells apart
+        ent("shape", "proc", m, "interface")
+        ent("make_shape", "proc", m, "function")
     setup = ent("setup", "proc", ma, "subroutine")
     ent("only_b", "proc", mb, "subroutine")
     ent("callback", "absint", ma, "absinterface")
     ent(f"lprog{sx}", "program", fb)
-    model = {"E": E, "fa": fa, "fb": fb, "ma": ma, "mb": mb, "sx": sx}
+    fx = ent(f"lnotes{sx}.inc", "file") if seed % 2 else None  # a file of an extra file type is a link target like any source file
+    model = {"E": E, "fa": fa, "fb": fb, "ma": ma, "mb": mb, "sx": sx, "fx": fx}
     return model, rng
 
 
@@ -98,10 +102,34 @@ def lookup(model, ctx, name, q, child, cq):
             return True
         return (e.sub == q) or (q == "absinterface" and e.kind == "absint") or (q == "type" and e.kind == "type")
 
+    # "If multiple items with the same name exist and type is not specified then FORD's behaviour is undefined; it will link to the
+    # first of those items which it finds" (user guide): an unqualified first part that names several entities (for instance a type and
+    # its constructor interface) may resolve to any of them, so any equally named entity - or its so-named child, or no link when the
+    # chosen one has no such child - is accepted.
+    same = [e for e in allents if e.name.lower() == name.lower() and e.kind != "arg"]
+    if q is None and len(same) > 1:
+        out = {e.eid for e in same}
+        if child is not None:
+            out |= {c.eid for e in same for c in e.children if c.name.lower() == child.lower()}
+        return out, "lenient"
+    def kids(e):
+        """(child, qualifiers under which it is reachable or None = by its own kind)"""
+        if e is None:
+            return []
+        out_ = [(c, None) for c in e.children]
+        if e.kind == "type" and e.parent is not None:
+            # the constructor (generic interface named like the type, in the type's module) is a child of the type, reachable
+            # without qualifier or as (constructor) - not as (interface)
+            out_ += [(c, ("constructor",)) for c in e.parent.children if c.sub == "interface" and c.name.lower() == e.name.lower()]
+        return out_
+
+    def km(c, via, qq):
+        return (qq is None or qq in via) if via else match_item(c, qq)
+
     cands = []
     if ctx is not None and (q is None or q in CONTEXT_ABLE):
-        for level in (ctx.children, ctx.parent.children if ctx.parent else []):
-            c = [e for e in level if e.name.lower() == name.lower() and match_item(e, q)]
+        for level in (kids(ctx), kids(ctx.parent)):
+            c = [e for e, via in level if e.name.lower() == name.lower() and km(e, via, q)]
             if c:
                 cands = c
                 break
@@ -113,8 +141,8 @@ def lookup(model, ctx, name, q, child, cq):
         return {e.eid for e in cands}, False
     out = set()
     for e in cands:
-        for c in e.children:
-            if c.name.lower() == child.lower() and match_item(c, cq):
+        for c, via in kids(e):
+            if c.name.lower() == child.lower() and km(c, via, cq):
                 out.add(c.eid)
     if not out:
         # documented: warning, link to the page of the first part instead (which equally named first part is left open)
@@ -168,6 +196,8 @@ def plan_refs(model, rng, thorough):
             for r in spellings(model, t, rng):
                 pool.append(r)
         # absent targets and children
+        pool += [("shape", "type", "shape", "constructor"), ("shape", "type", "shape", "constructor"), ("shape", "type", "shape", None),
+                 (model["ma"].name, None, "shape", "interface"), (model["mb"].name, "module", "shape", "type"), (model["ma"].name, None, "shape", "type")]
         pool += [("nosuchthing", None, None, None), ("nosuchthing", "module", None, None), (model["ma"].name, None, "nosuchchild", None),
                  ("area", "type", None, None), ("shape", "proc", None, None), ("nosuchthing", None, "init", None), ("nosuchthing", "module", "init", "subroutine")]
         chosen = pool if thorough and nrefs is None else rng.sample(pool, min(len(pool), nrefs or 14))
@@ -217,12 +247,14 @@ def render(model, sites):
         tc = {c.name: c for c in t.children}
         L += ["type :: shape"] + doc(t) + ["real :: side"] + doc(tc["side"]) + ["contains", f"procedure :: draw => draw_impl_{m.name}"] + doc(tc["draw"]) + ["end type shape"]
         L += ["integer :: count"] + doc(ch["count:variable"])
+        L += ["interface shape"] + doc(ch["shape:proc"]) + ["module procedure make_shape", "end interface"]
         if "callback:absint" in ch:
             L += ["abstract interface", "subroutine callback(x)"] + doc(ch["callback:absint"]) + ["real, intent(in) :: x", "end subroutine", "end interface"]
         L += ["contains"]
         f = ch["area:proc"]
         fc = {c.name: c for c in f.children}
         L += ["function area(radius) result(res)"] + doc(f) + ["real, intent(in) :: radius"] + doc(fc["radius"]) + ["real :: res", "res = radius", "end function area"]
+        L += ["function make_shape(s) result(r)"] + doc(ch["make_shape:proc"]) + ["real, intent(in) :: s", "type(shape) :: r", "r%side = s", "end function make_shape"]
         L += [f"subroutine draw_impl_{m.name}(self)", "class(shape), intent(in) :: self", f"end subroutine draw_impl_{m.name}"]
         for nm in ("setup", "only_b"):
             if nm + ":proc" in ch:
@@ -232,6 +264,12 @@ def render(model, sites):
             pg = [e for e in E.values() if e.kind == "program"][0]
             L += [f"program {pg.name}"] + doc(pg) + [f"use {model['ma'].name}", "implicit none", "call setup()", f"end program {pg.name}"]
         files[fobj.name] = "\n".join(L) + "\n"
+    if model.get("fx") is not None:
+        files[model["fx"].name] = "\n".join(doc(model["fx"]) + ["! plain comment", "some text of another file type"]) + "\n"
+    # read last: a module whose variables carry the names that references without context use - nothing may resolve to them
+    files[f"zz_last{sx}.f90"] = "\n".join([f"module zz_last{sx}", "!! not a target", "implicit none", "integer :: area, shape, setup, only_b, callback, nosuchthing",
+                                           f"integer :: {model['ma'].name}_v, draw, side", "integer :: count", "!! the last documented entity of the project",
+                                           f"end module zz_last{sx}"]) + "\n"
     return files
 
 
@@ -261,7 +299,7 @@ def case(arg):
         open(os.path.join(pd, "deep", "deeper", "index.md"), "w").write("title: Deeper\n\n" + ref_text(sbyk["page_nested"]["refs"]) + "\n")
         opts = {"project": f"P{seed}", "src_dir": "./src", "output_dir": "./doc", "page_dir": "./pages", "preprocess": False, "parallel": 0, "graph": False,
                 "search": False, "display": ["public", "private", "protected"], "proc_internals": True, "quiet": True,
-                "summary": ref_text(sbyk["summary"]["refs"])}
+                "summary": ref_text(sbyk["summary"]["refs"]), "extra_filetypes": "inc !"}
         site.write_project_file(base, opts, body="Front matter. " + ref_text(sbyk["project_file"]["refs"]) + "\n")
         # run from a *different* working directory than the project (links must not depend on the cwd)
         st, r = core.run_alone(run_case, {"root": base}, timeout=300)
@@ -312,8 +350,9 @@ def case(arg):
                 return set(re.findall(r"zt\d+", node.get_text(" "))), None
             text = sp.find(id="text")
             head = sp.find("h1")
-            words = set(re.findall(r"zt\d+", (text.get_text(" ") if text else sp.get_text(" "))))
-            return words, None
+            # the page documents the entity whose documentation comes first; what follows are its contents (for a type also its constructor)
+            words = re.findall(r"zt\d+", (text.get_text(" ") if text else sp.get_text(" ")))
+            return set(words[:1]), None
 
         viol = []
         nocc = 0
@@ -356,6 +395,8 @@ def case(arg):
                                 seen.add(json.dumps(kf))
                                 viol.append({"kf": kf, "w": {"seed": seed, "ref": rf, "warnings": r["warnings"][:5]}})
                         continue
+                    if not am and rf["fallback_to_parent"] == "lenient":
+                        continue  # ambiguous unqualified name: the item FORD picked first may not have such a child
                     if not am:
                         kf = {"kind": "reference_not_linked", **kfb}
                         if json.dumps(kf) not in seen:
